@@ -132,6 +132,34 @@ var scenarios = []schedrig.Scenario{
 		w.Until(func() bool { return w.Seen("key:Shift+F3") && w.Seen("key:F3") })
 		w.Vx.Close()
 	}},
+	{Name: "queries-from-goroutines-while-rendering", Queue: 8, Body: func(w *schedrig.World) {
+		// two goroutines ask for the cursor position and request resizes while the main goroutine draws
+		done := 0
+		for _, name := range []string{"q1", "q2"} {
+			vsched.GoNamed(name, func() {
+				row, col := w.Vx.CursorPosition()
+				if !(row == -1 && col == -1) && (row < 0 || row >= 6 || col < 0 || col >= 20) {
+					w.Failf("cursor-position", "CursorPosition returned %d,%d on a 20x6 terminal", row, col)
+				}
+				w.Vx.Resize()
+				w.Vx.PostEventBlocking(schedrig.UserEv{Src: "Q", N: 0})
+			})
+		}
+		w.Draw()
+		for i := 0; i < 40 && done < 2; i++ {
+			ev, ok := w.Next()
+			if !ok {
+				break
+			}
+			if u, isUser := ev.(schedrig.UserEv); isUser && u.Src == "Q" {
+				done++
+			}
+		}
+		if done < 2 {
+			w.Failf("lost-event", "a querying goroutine never finished: %v", w.Got)
+		}
+		w.Vx.Close()
+	}},
 	{Name: "colour-query-unanswered", Queue: 8, Caps: refterm.CapRGB | refterm.CapSync | refterm.CapOSC11, Body: func(w *schedrig.World) {
 		// the terminal answered OSC 11 at start-up (so the capability is on) and now stays silent
 		w.Con.Mute = true
@@ -249,5 +277,5 @@ var scenarios = []schedrig.Scenario{
 }
 
 func main() {
-	schedrig.Main("C10", scenarios, "posting goroutines with a 2-slot and a 16-slot queue, SyncFunc, Resize, typed input, lone ESC around the timer, rendering against input, CursorPosition (once, twice, unanswered then F3) and ClipboardPop with replies early/late/never, a colour query that is never answered, Suspend/Resume plain / with ESC pending / with a full queue, Close with a full queue, SIGWINCH, SIGTERM, spinner widget (also ticking into a full queue)")
+	schedrig.Main("C10", scenarios, "posting goroutines with a 2-slot and a 16-slot queue, SyncFunc, Resize, typed input, lone ESC around the timer, rendering against input, CursorPosition (once, twice, unanswered then F3) and ClipboardPop with replies early/late/never, a colour query that is never answered, cursor queries and resize requests from two goroutines while the main goroutine renders, Suspend/Resume plain / with ESC pending / with a full queue, Close with a full queue, SIGWINCH, SIGTERM, spinner widget (also ticking into a full queue)")
 }
